@@ -176,7 +176,7 @@ def work(t):
     for bits_ in itertools.product([False, True], repeat=len(chs)):
       f = z3.simplify(z3.substitute(body, *[(c, z3.BoolVal(b)) for c, b in zip(chs, bits_)])) if chs else body
       texts.append((bits_, to_smt2([f])))
-    with cf.ThreadPoolExecutor(max_workers=max(1, len(texts))) as ex:
+    with cf.ThreadPoolExecutor(max_workers=max(1, min(len(texts), 4))) as ex:
       rs = list(ex.map(lambda bt: check_text(bt[1], names, timeout), texts))
     sats = [(bt[0], r) for bt, r in zip(texts, rs) if r['status'] == 'sat']
     st = 'sat' if sats else ('unsat' if all(r['status'] == 'unsat' for r in rs) else 'unknown')
@@ -352,12 +352,13 @@ def run(rep):
   rep.encode('precondition.quantization_utils.QuantizedValue.quantize/from_float_value/to_float', 'precondition/quantization_utils.py')
   ts = tasks(rep.tier)
   for t in ts:
-    t['timeout'] = 900 if rep.tier == 'quick' else (1500 if t.get('stretch') else 3000)
+    t['timeout'] = 900 if rep.tier == 'quick' else (700 if t.get('stretch') else 1500)
   rep.bounds = dict(tasks=len(ts), rows_per_column=sorted({t['m'] for t in ts}), dtypes=sorted({t['dt'] for t in ts}),
                     values='all finite float32 bit patterns (subnormals included) per entry')
   rep.assumptions = ['XLA:CPU flush-to-zero semantics for float32 arithmetic', 'float->int conversion is exact for in-range integral values (range is obligation Q1)',
                      'columns are independent (the jaxpr reduces over axis 0 only)', 'no FMA contraction']
   rep.outside = ['bfloat16 mode (narrow float conversion not encoded)', 'more than 3 rows per column (quick: 2)', 'NaN/Inf inputs (the property speaks of finite tensors)']
   rep.extra['solvers'] = 'cvc5 1.4.0 wheel and z3 5.1.0 CLI raced per query; first definite answer wins'
-  run_tasks('vp.props.c11', 'work', ts, report=rep, timeout=(1000 if rep.tier == 'quick' else 3300))
+  # every task races up to 4 lowering cases x 2 solvers: keep the number of solver processes near the core count
+  run_tasks('vp.props.c11', 'work', ts, report=rep, timeout=(1000 if rep.tier == 'quick' else 6300), workers=(8 if rep.tier == 'quick' else 3))
   rep.violations += known_replays()
